@@ -14,6 +14,7 @@ import (
 	"sort"
 	"strings"
 	"sync"
+	"sync/atomic"
 	"syscall"
 	"time"
 
@@ -59,8 +60,11 @@ type Mut struct {
 	// foreign-wal: <output> is absent but a VALID SQLite WAL sits at <output>-wal (optionally with its -shm):
 	// "foreign" = the un-checkpointed WAL of another database with the same page size, "own" = the WAL of an
 	// earlier incarnation of this very output (restored at TXID 1, then written to).
-	WalKind string `json:"wal_kind,omitempty"` // foreign | own
-	WithShm bool   `json:"with_shm,omitempty"`
+	// cancel: the restore's context is cancelled when the LAST plan file's stream reaches EOF (+ delay): all
+	// downloads are complete, only the post-restore integrity check can see the cancellation
+	CancelDelayUS int    `json:"cancel_delay_us,omitempty"`
+	WalKind       string `json:"wal_kind,omitempty"` // foreign | own
+	WithShm       bool   `json:"with_shm,omitempty"`
 }
 
 type RestoreCase struct {
@@ -284,6 +288,25 @@ func doRestore(q workerReq) workerResp {
 	m := q.Mut
 	if strings.HasPrefix(m.Kind, "disk-") {
 		return doDiskRestore(q, out)
+	}
+	if m.Kind == "cancel" {
+		if len(q.Plan) == 0 {
+			return workerResp{Err: "HARNESS: empty plan"}
+		}
+		ctx, cancel := context.WithCancel(context.Background())
+		defer cancel()
+		last := q.Plan[len(q.Plan)-1]
+		cc := &cancelClient{ReplicaClient: file.NewReplicaClient(q.Dir), last: last, cancel: cancel, delay: time.Duration(m.CancelDelayUS) * time.Microsecond}
+		r := litestream.NewReplicaWithClient(nil, cc)
+		opt := litestream.NewRestoreOptions()
+		opt.OutputPath = out
+		opt.IntegrityCheck = litestream.IntegrityCheckMode(m.Integrity)
+		rerr := r.Restore(ctx, opt)
+		resp := workerResp{OK: rerr == nil, Log: []string{fmt.Sprintf("last-file EOF seen=%v ctx.Err at return=%v", cc.fired.Load(), ctx.Err())}}
+		if rerr != nil {
+			resp.Err = rerr.Error()
+		}
+		return resp
 	}
 	if m.Kind == "foreign-wal" {
 		w, err := os.ReadFile(q.Plant)
@@ -539,6 +562,17 @@ func restoreOracle(m Mut, o restoreObs) string {
 			return "pre-existing output path was modified: " + o.Out
 		}
 		return ""
+	}
+	if m.Kind == "cancel" {
+		switch {
+		case o.Res == "ok" && m.MustErr != "":
+			return "Restore returned nil (reporting a passed integrity check) although " + m.MustErr + " (output: " + o.Out + ")"
+		case o.Res == "ok" && o.Out != "complete":
+			return "Restore returned nil but the output differs from the reference image: " + o.Out
+		case o.Res != "ok" && o.Out != "absent" && o.Out != "complete":
+			return "Restore returned an error (" + o.Res + ") and left a damaged file at the output path: " + o.Out
+		}
+		return "" // after an interrupted check the complete output may stay; success must not be reported
 	}
 	if m.Kind == "foreign-wal" {
 		switch {
@@ -838,4 +872,38 @@ func logicalDump(path string) string {
 		return fmt.Sprintf("integrity=%s schema=%v t: %v", firstLine(ic), names, err)
 	}
 	return fmt.Sprintf("integrity=%s schema=%v t=%d rows %s", firstLine(ic), names, n, hex.EncodeToString(h.Sum(nil)[:6]))
+}
+
+// cancelClient cancels the restore's context once the last plan file has been read to EOF.
+type cancelClient struct {
+	*file.ReplicaClient
+	last   planID
+	cancel context.CancelFunc
+	delay  time.Duration
+	fired  atomic.Bool
+}
+
+type eofStream struct {
+	io.ReadCloser
+	c *cancelClient
+}
+
+func (s *eofStream) Read(p []byte) (int, error) {
+	n, err := s.ReadCloser.Read(p)
+	if err == io.EOF && s.c.fired.CompareAndSwap(false, true) {
+		if s.c.delay == 0 {
+			s.c.cancel()
+		} else {
+			time.AfterFunc(s.c.delay, s.c.cancel)
+		}
+	}
+	return n, err
+}
+
+func (c *cancelClient) OpenLTXFile(ctx context.Context, level int, minTXID, maxTXID ltx.TXID, offset, size int64) (io.ReadCloser, error) {
+	rc, err := c.ReplicaClient.OpenLTXFile(ctx, level, minTXID, maxTXID, offset, size)
+	if err != nil || level != c.last.Level || uint64(minTXID) != c.last.Min || uint64(maxTXID) != c.last.Max {
+		return rc, err
+	}
+	return &eofStream{ReadCloser: rc, c: c}, nil
 }
